@@ -32,6 +32,7 @@ func init() {
 	cores["ackq"] = func() core { return &ackqCore{q: newQueue()} }
 	gens["ackq"] = genAckq
 	gens["ackq-sweep"] = genAckqSweep
+	gens["ackq-sweep-ping"] = genAckqSweepPing
 }
 
 func scribble(b []byte) {
@@ -164,6 +165,7 @@ type ackqGen struct {
 	flight []int // ids believed to be in flight, oldest first
 	tag    int
 	idmax  int
+	pingy  bool // ping-heavy episode: several outstanding pings, PINGRESPs between the other acks
 }
 
 func (g *ackqGen) emit(format string, a ...interface{}) {
@@ -182,6 +184,10 @@ func (g *ackqGen) inFlight(id int) bool {
 func (g *ackqGen) wait() {
 	r := g.r
 	g.tag++
+	if g.pingy && r.Intn(3) == 0 {
+		g.emit("wait ping %s %d", hexOf(encMsg(message.NewPingreqMessage())), g.tag)
+		return
+	}
 	id := 1 + r.Intn(g.idmax)
 	if r.Intn(4) != 0 { // mostly fresh ids
 		for k := 0; k < 4 && g.inFlight(id); k++ {
@@ -229,7 +235,7 @@ var ackTypes = []message.Type{message.PUBACK, message.PUBREC, message.PUBREL, me
 
 func (g *ackqGen) ack() {
 	r := g.r
-	if r.Intn(12) == 0 {
+	if r.Intn(12) == 0 || (g.pingy && r.Intn(3) == 0) {
 		g.emit("ack %d 0 %s", message.PINGRESP, hexOf(ackBytes(message.PINGRESP, 0)))
 		return
 	}
@@ -332,6 +338,7 @@ func genAckq(seed int64, n int, tier string, w *bufio.Writer) {
 	g := &ackqGen{r: r, w: w}
 	for done := 0; done < n; {
 		g.flight = nil
+		g.pingy = r.Intn(4) == 0
 		g.emit("reset")
 		if r.Intn(4) == 0 {
 			done += g.churn(n - done)
@@ -379,6 +386,45 @@ func genAckqSweep(seed int64, depth int, tier string, w *bufio.Writer) {
 		for _, i := range idx {
 			fmt.Fprintln(w, "ackq "+alphabet[i])
 		}
+		fmt.Fprintln(w, "ackq acked")
+		k := depth - 1
+		for k >= 0 {
+			idx[k]++
+			if idx[k] < len(alphabet) {
+				break
+			}
+			idx[k] = 0
+			k--
+		}
+		if k < 0 {
+			break
+		}
+	}
+}
+
+// genAckqSweepPing enumerates every operation sequence of the given depth over the ping alphabet
+// (register a ping, PINGRESP, collect) and one identifier-keyed request sharing the queue: any number
+// of outstanding pings, PINGRESPs with none outstanding, collects at every point.
+func genAckqSweepPing(seed int64, depth int, tier string, w *bufio.Writer) {
+	r := rand.New(rand.NewSource(1))
+	alphabet := []string{
+		"wait ping " + hexOf(encMsg(message.NewPingreqMessage())) + " %d",
+		fmt.Sprintf("ack %d 0 %s", message.PINGRESP, hexOf(ackBytes(message.PINGRESP, 0))),
+		"acked",
+		fmt.Sprintf("wait pub 1 1 %s 9", hexOf(pubBytes(1, 1, r))),
+		fmt.Sprintf("ack %d 1 %s", message.PUBACK, hexOf(ackBytes(message.PUBACK, 1))),
+	}
+	idx := make([]int, depth)
+	for {
+		fmt.Fprintln(w, "ackq reset")
+		for pos, i := range idx {
+			if i == 0 {
+				fmt.Fprintf(w, "ackq "+alphabet[i]+"\n", pos+1) // the position is the ping's tag
+			} else {
+				fmt.Fprintln(w, "ackq "+alphabet[i])
+			}
+		}
+		fmt.Fprintln(w, "ackq acked")
 		fmt.Fprintln(w, "ackq acked")
 		k := depth - 1
 		for k >= 0 {
